@@ -92,6 +92,12 @@ def check_bootstrap(case):
             require(np.array_equal(e.seen_w_, w[ii]), "resample:w-misaligned", "model %d" % i, facts)
         drawn.update(ii.tolist())
         draws += m
+    # drawn with replacement: a resample of n rows out of n is the training set in its own order with probability n^-n
+    if n >= 12:
+        for i, e in enumerate(ests):
+            if len(e.seen_X_) == n:
+                require(e.seen_X_[:, 0].tolist() != list(range(n)), "resample:is-the-training-set-in-order",
+                        "model %d was trained on rows 0..%d in order: nothing was drawn (chance of that: %d^-%d)" % (i, n - 1, n, n), facts)
     # independent draws: two resamples of m rows out of n coincide with probability n^-m
     if ne >= 2 and n >= 2 and len(ests[0].seen_X_) * math.log10(n) >= 12:
         first = ests[0].seen_X_[:, 0].tolist()
@@ -188,7 +194,7 @@ def check_aggregate(case):
 def _boot_cases(draw, tier="quick"):
     n = draw(st.one_of(st.integers(1, 4), st.integers(1, 12), st.integers(1, 12), st.integers(20, 40)))
     alpha = draw(st.sampled_from([0.3, 0.5, 0.75, 1.0, 1.0, 1.0, 1.25, 1.5, 2.0]))
-    ne = draw(st.one_of(st.integers(1, 60), st.integers(40, 60)))
+    ne = draw(st.one_of(st.integers(1, 60), st.integers(40, 60), st.sampled_from([1, 1, 2])))       # a single model is still a bootstrap model
     return dict(n=n, d=draw(st.integers(1, 3)), alpha=alpha, n_estimators=ne, weights=draw(st.booleans()),
                 n_jobs=draw(st.sampled_from([None, None, 1, 2])), seed=draw(st.integers(0, 2**31 - 1)),
                 yield_fit=draw(st.sampled_from([0, 0, 1])), base_random_state=draw(st.sampled_from([None, None, 0, 7, 12345])), zero_w=draw(st.lists(st.integers(0, 11), max_size=3)) if draw(st.integers(0, 2)) == 0 else [],
